@@ -316,14 +316,17 @@ pub fn parse_file_internal(context: &ParseContext) -> Result<(), Error> {
     Ok(())
 }
 
-/// Most operators and opening parentheses a single line may hold
-pub const MAX_LINE_OPERATORS: usize = 500;
+/// Most operators and opening parentheses a single operand may hold
+pub const MAX_LINE_OPERATORS: usize = 200;
 
 /// The grammar, and everything that later walks an expression tree, recurses once per nesting
-/// level. A line with thousands of parentheses or operators would overflow the stack, so such a
-/// line is refused before it is parsed (strings and comments do not count).
+/// level. An operand with thousands of parentheses or operators would overflow the stack, so a
+/// line with such an operand is refused before it is parsed (strings and comments do not
+/// count). The limit is meant to be safe on a 2 MiB thread stack in unoptimised builds too.
 fn too_complex(line: &str) -> bool {
     let mut operators = 0;
+    let mut most_operators = 0;
+    let mut parentheses = 0;
     let mut in_string = false;
     let mut previous = ' ';
     let mut chars = line.chars().peekable();
@@ -356,14 +359,23 @@ fn too_complex(line: &str) -> bool {
                 previous = ' ';
                 continue;
             }
+            // the next operand of a list starts a new count
+            ',' if parentheses == 0 => {
+                most_operators = most_operators.max(operators);
+                operators = 0;
+            }
+            ')' => parentheses = if parentheses > 0 { parentheses - 1 } else { 0 },
             '(' | '+' | '-' | '*' | '/' | '%' | '!' | '~' | '<' | '>' | '&' | '|' | '^' | '=' => {
+                if c == '(' {
+                    parentheses += 1;
+                }
                 operators += 1
             }
             _ => {}
         }
         previous = c;
     }
-    operators > MAX_LINE_OPERATORS
+    most_operators.max(operators) > MAX_LINE_OPERATORS
 }
 
 #[derive(Clone, Copy, PartialEq, Eq, Debug)]
@@ -529,7 +541,7 @@ pub fn parse_iter<'a>(
             crate::verif::line(&context.current_path, line_num);
             if too_complex(line) {
                 bail!(
-                    "failed to parse {} with error: more than {} operators or parentheses in one line",
+                    "failed to parse {} with error: more than {} operators or parentheses in one operand",
                     CodePoint { line_num, num: 1 },
                     MAX_LINE_OPERATORS
                 );
